@@ -391,8 +391,14 @@ def id_taints(sc, arg):
         if x[0] == "kx" and dict(x[1]).get("static"):
             out.append("static %s" % dict(x[1]).get("static"))
         if x[0] == "var":
-            # loop-carried counter: a definition of the form var = var +/- c
             body = sc.body
+            # a list that is being built while the ids are computed: the id then depends on what was converted before this element
+            for b_, t_ in body.calls():
+                if short_callee(callee_name(t_) or "") in ("push", "insert", "extend", "push_str", "push_back", "append", "extend_from_slice") and t_["args"]:
+                    r_ = strip(sc.eb.operand(t_["args"][0]))
+                    if r_[0] == "var" and r_[1] == x[1]:
+                        out.append("the list `%s` that is being filled in the same loop (the elements converted before this one)" % x[2])
+            # loop-carried counter: a definition of the form var = var +/- c
             for d in body.defs().get(x[1], []):
                 if d[0] == "st":
                     rv = d[3]["rv"]
@@ -421,6 +427,9 @@ def lock_sites(ctx, prog):
         body = fn.body
         for b, t in body.calls():
             nm = callee_name(t) or ""
+            if short_callee(nm) == "try_lock" and ("sync::Mutex" in nm or "sync::RwLock" in nm or "sync::poison::mutex::Mutex" in nm or "Mutex" in nm):
+                ctx.violation("c05.trylock", "c05.trylock|%s" % prog.display(fn), "try_lock on a shared table: whether it succeeds depends on what other threads are doing, so the result of "
+                              "this computation is not the same in every schedule", fn.loc(t.get("ln")))
             if nm.endswith("Mutex::<T>::lock") or nm.endswith("Mutex<T>::lock") or "sync::Mutex" in nm and short_callee(nm) in ("lock", "try_lock"):
                 sites.append((fn, b, t))
             if short_callee(nm) == "deref_mut" and "MutexGuard" in nm:
